@@ -16,6 +16,9 @@ from props.c17 import digest_ref
 
 ID = "C16"
 LEVEL = "exploration"
+LEVEL_TEXT = (
+    "All incidence matrices up to 3x3 (quick) / 4x4 (thorough) proteins x peptides in three entry orders satisfy the grouping predicates, exhaustively; larger random structures and re-reads under other hash seeds in addition."
+)
 TECHNIQUE = (
     "exhaustive enumeration of all small protein x peptide incidence matrices (rendered as FASTA) x entry orders, "
     "Hypothesis-generated larger structures with mirrored decoys and digest parameters, and re-reading batches in "
